@@ -37,6 +37,7 @@ var gvcAPIScenarios = []gvcAPIScenario{
 	{"added-import-and-top-level-decl", "@@\n@@\n+import \"fmt\"\n\n-func hello() {\n-  println(\"hi\")\n-}\n+func hello() {\n+  fmt.Println(\"hi\")\n+}\n", "package a\n\nvar before = 1\n\nfunc hello() {\n\tprintln(\"hi\")\n}\n\nfunc other() {}\n", true},
 	{"elision-across-list-kinds", "@@\n@@\n-foo(...)\n+bar(func(...) {})\n", "package a\n\nfunc g() { foo(1, 2) }\n", true},
 	{"array-length-elision-on-plus-line", "@@\nvar x expression\n@@\n-foo(x)\n+[...]int{x}\n", "package a\n\nvar _ = foo(1)\n", true},
+	{"line-directive-in-target", "@@\n@@\n bar()\n-foo()\n-foo()\n", "package x\n\n//line gen.y:1000\nfunc f() {\n\tbar()\n\tfoo()\n\tfoo()\n\tbaz()\n}\n", true},
 	{"elision-both-sides", "@@\n@@\n func f() {\n   ...\n-  foo()\n+  bar()\n+  baz()\n   ...\n }\n", "package a\n\nfunc f() {\n\ta()\n\tfoo()\n\tb()\n\tc()\n}\n", true},
 }
 
